@@ -295,7 +295,13 @@ def result_sites_visible(model):
                     ff = frame_fields(e) or {}
                     data = [v for k, v in ff.items() if k != "server_tx"]
                 elif e["k"] in ("reg_set", "reg_del"):
-                    data = [e.get("key")] if e.get("key") is not None else []
+                    r = e.get("reg")
+                    if isinstance(r, tuple) and len(r) >= 3 and r[0] in ("reg", "attr") and \
+                            isinstance(r[1], tuple) and r[1] and r[1][0] == "obj":
+                        # a store into an object's container (not a local list)
+                        data = [e.get("key")] if e.get("key") is not None else []
+                    else:
+                        continue
                 elif e["k"] == "raise":
                     data = []
                 if data is None:
